@@ -36,6 +36,8 @@ WITNESSES = [
     case_text("wake_during_poll", "blockon", ["wake"], [0, 0, 0, 0, 1, 1, 1, 0, 0, 0, 0, 0, 0, 0, 0, 0, 0, 0]),
     case_text("wake_store_during_poll_notify_later", "blockon", ["wake"], [0, 0, 0, 0, 1, 1, 0, 0, 1, 0, 0, 0, 0, 0, 0, 0, 0, 0, 0, 0]),
     # a future of the yield_now kind: it wakes itself inside poll and returns Pending
+    # stop() and then a completing wake while the loop waits: block_on must return None, the future is not polled again
+    case_text("stop_then_completing_wake_while_waiting", "blockon", ["stop ; complete ; wake"], [0] * 8 + [1] * 8 + [0] * 12),
     case_text("self_wake_twice", "blockon", ["complete"], [0] * 26 + [1] + [0] * 10, selfwake=2),
 ]
 
@@ -83,11 +85,20 @@ def spec_c11(case, trace):
     started = False
     fready_stored = False    # block_on: a waker store not yet followed by a poll
     last_polls = 0
+    need_sample, stop_at_iter_start = False, False
     steps = [l.split() for l in trace if l.startswith("step ")]
     for w in steps:
         t, label = int(w[1]), w[2]
         kv = dict(x.split("=") for x in w[3:])
         polls, result = int(kv["polls"]), kv["result"]
+        # "returns None exactly when stop() was requested first": an iteration that begins after stop() has completed
+        # must not poll the future
+        if t == 0 and label != "skip" and need_sample:
+            stop_at_iter_start, need_sample = stop_done, False
+        if polls > last_polls and t == 0 and mode == "blockon" and stop_at_iter_start:
+            return "stop() had completed before this iteration of block_on began, yet the future was polled again (it may complete: Some instead of None)"
+        if t == 0 and label in ("run.reset", "run.iter_end"):
+            need_sample = True
         if polls > last_polls:
             fready_stored = False
         last_polls = polls
